@@ -849,3 +849,26 @@ def case_conv_affine_shapes():
 
 
 CASES["conv_affine_shapes"] = case_conv_affine_shapes
+
+
+def case_ovr_pad_conv():
+    """Conv(Pad(x, pads)) with `pads` an initializer that is also a graph input (default: pad H and W by 1)"""
+    import onnx_ir as ir
+    from onnxscript.rewriter.rules.common import _fuse_pad_into_conv as R
+    w = numpy_helper.from_array(np.ones((1, 1, 3, 3), np.float32), "w")
+    pads = numpy_helper.from_array(np.array([0, 0, 1, 1, 0, 0, 1, 1], np.int64), "pads")
+    g = helper.make_graph([helper.make_node("Pad", ["x", "pads"], ["p"]), helper.make_node("Conv", ["p", "w"], ["y"])], "g",
+                          [vi("x", TensorProto.FLOAT, [1, 1, 4, 4]), vi("pads", TensorProto.INT64, [8])], [vi("y", TensorProto.FLOAT, None)], [w, pads])
+    m = helper.make_model(g, opset_imports=[helper.make_opsetid("", 18)], ir_version=9)
+    f = {"x": np.ones((1, 1, 4, 4), np.float32), "pads": np.array([0, 0, 2, 2, 0, 0, 2, 2], np.int64)}
+    a = np.asarray(run(m, f)[0])
+    mm = ir.serde.deserialize_model(m)
+    n = R.rules.apply_to_model(mm)
+    b = np.asarray(run(ir.serde.serialize_model(mm), f)[0])
+    if a.shape != b.shape or not np.array_equal(a, b):
+        print(f"Conv(Pad(x, pads)) with pads an overridable initializer (default 1, fed 2): rule applied {n}x ({[z.op_type for z in mm.graph]}); original output {a.shape}, rewritten {b.shape}")
+        return 1
+    return 0
+
+
+CASES["ovr_pad_conv"] = case_ovr_pad_conv
